@@ -27,7 +27,9 @@ type C05Case struct {
 }
 
 var c05Seps = []string{"", " ", "  ", "\t", "\n", " \n\t ", "\r\n"}
-var c05Trailing = []string{")", ",", "POINT(1 1)", "7", "EMPTY", "(", "Z", "x", "-", "1 1", ", POINT EMPTY", "POINT EMPTY"}
+var c05Trailing = []string{")", ",", "POINT(1 1)", "7", "EMPTY", "(", "Z", "x", "-", "1 1", ", POINT EMPTY", "POINT EMPTY",
+	// lexically malformed trailers (the lexer, not the parser, has to refuse them)
+	"1e", "0x", "2.5e+", "0b", "1_", "\xff", "\x00", "1.e", "@", "#", "0o8", "1e+", ".", "'"}
 
 func c05Gen(t *rapid.T, cx *h.Ctx) C05Case {
 	o := gen.Opts{XY: gen.FiniteFloat, ZM: gen.FiniteFloat, CT: -1, AllowZero: true}
